@@ -1,0 +1,143 @@
+//go:build verif
+
+// Verification hook for /verif property C12 (Connect CA). Add-only, compiled only with
+// `-tags verif`. caServerDelegate has unexported methods, so a store-backed implementation
+// has to live in this package. Nothing here decides anything: it applies CA commands to a
+// real state.Store exactly like FSM.applyConnectCAOperation does and hands out the real
+// CAManager.
+package consul
+
+import (
+	"fmt"
+	"io"
+	"sync"
+
+	"github.com/hashicorp/go-hclog"
+
+	"github.com/hashicorp/consul/agent/consul/fsm"
+	"github.com/hashicorp/consul/agent/consul/state"
+	"github.com/hashicorp/consul/agent/structs"
+	"github.com/hashicorp/consul/lib/routine"
+)
+
+// VerifCAApplied is one CA command that went through the delegate.
+type VerifCAApplied struct {
+	Index  uint64
+	Req    *structs.CARequest
+	Result interface{}
+}
+
+// VerifCADelegate is a caServerDelegate over a bare state.Store. Every CA request is msgpack
+// round-tripped (as raft would do) and applied with fsm.ApplyConnectCAOperationFromRequest at
+// the next index.
+type VerifCADelegate struct {
+	mu         sync.Mutex
+	store      *state.Store
+	idx        uint64
+	datacenter string
+	primaryDC  string
+
+	// OnApply, when set, is called around every applied CA request (before=true, then
+	// before=false with the result). Used by the harness to record pre/post root sets.
+	OnApply func(before bool, a VerifCAApplied)
+}
+
+var _ caServerDelegate = (*VerifCADelegate)(nil)
+
+func (d *VerifCADelegate) State() *state.Store { return d.store }
+func (d *VerifCADelegate) IsLeader() bool      { return true }
+
+func (d *VerifCADelegate) ProviderState(id string) (*structs.CAConsulProviderState, error) {
+	_, s, err := d.store.CAProviderState(id)
+	return s, err
+}
+
+// NextIndex allocates the next "raft" index.
+func (d *VerifCADelegate) NextIndex() uint64 {
+	d.mu.Lock()
+	defer d.mu.Unlock()
+	d.idx++
+	return d.idx
+}
+
+// LastIndex returns the last allocated index.
+func (d *VerifCADelegate) LastIndex() uint64 {
+	d.mu.Lock()
+	defer d.mu.Unlock()
+	return d.idx
+}
+
+// ApplyCARequest mirrors Server.raftApplyMsgpack(ConnectCARequestType) + FSM.applyConnectCAOperation:
+// an error returned by the FSM becomes the error result with a nil response.
+func (d *VerifCADelegate) ApplyCARequest(req *structs.CARequest) (interface{}, error) {
+	buf, err := structs.Encode(structs.ConnectCARequestType, req)
+	if err != nil {
+		return nil, err
+	}
+	var dec structs.CARequest
+	if err := structs.Decode(buf[1:], &dec); err != nil {
+		return nil, err
+	}
+	idx := d.NextIndex()
+	if d.OnApply != nil {
+		d.OnApply(true, VerifCAApplied{Index: idx, Req: &dec})
+	}
+	result := fsm.ApplyConnectCAOperationFromRequest(d.store, &dec, idx)
+	if d.OnApply != nil {
+		d.OnApply(false, VerifCAApplied{Index: idx, Req: &dec, Result: result})
+	}
+	if err, ok := result.(error); ok && err != nil {
+		return nil, err
+	}
+	return result, nil
+}
+
+// ApplyCALeafRequest mirrors FSM.applyConnectCALeafOperation (CALeafOpIncrementIndex).
+func (d *VerifCADelegate) ApplyCALeafRequest() (uint64, error) {
+	idx := d.NextIndex()
+	if err := d.store.CALeafSetIndex(idx, idx); err != nil {
+		return 0, err
+	}
+	return idx, nil
+}
+
+func (d *VerifCADelegate) forwardDC(method, dc string, args interface{}, reply interface{}) error {
+	return fmt.Errorf("verif delegate: no remote datacenter (%s to %s)", method, dc)
+}
+
+func (d *VerifCADelegate) generateCASignRequest(csr string) *structs.CASignRequest {
+	return &structs.CASignRequest{Datacenter: d.primaryDC, CSR: csr}
+}
+
+func (d *VerifCADelegate) ServersSupportMultiDCConnectCA() error { return nil }
+
+// VerifNewCADelegate returns a delegate over store; startIndex is the last index already used.
+func VerifNewCADelegate(store *state.Store, datacenter string, startIndex uint64) *VerifCADelegate {
+	return &VerifCADelegate{store: store, idx: startIndex, datacenter: datacenter, primaryDC: datacenter}
+}
+
+// VerifNewCAManager builds the real CAManager of a primary-datacenter leader with the given
+// initial CA configuration over the delegate's store and runs CAManager.Initialize.
+func VerifNewCAManager(d *VerifCADelegate, caConfig *structs.CAConfiguration) (*CAManager, error) {
+	logger := hclog.New(&hclog.LoggerOptions{Output: io.Discard, Level: hclog.Off})
+	conf := &Config{
+		Datacenter:        d.datacenter,
+		PrimaryDatacenter: d.primaryDC,
+		ConnectEnabled:    true,
+		CAConfig:          caConfig,
+	}
+	m := NewCAManager(d, routine.NewManager(logger), logger, conf)
+	if err := m.Initialize(); err != nil {
+		return nil, err
+	}
+	return m, nil
+}
+
+// VerifActiveProviderRootID is the ID of the root the manager currently signs with.
+func (c *CAManager) VerifActiveProviderRootID() string {
+	_, root := c.getCAProvider()
+	if root == nil {
+		return ""
+	}
+	return root.ID
+}
